@@ -4,7 +4,8 @@
             | D:<hex64>:<cat> | I:<int>:<cat> | Q:<hexbytes>:<cat>     constants
             | N:<hexname>:<cat>:<argcats>:<parametric 0|1>:<terminal 0|1>   base display
      gene ::= <symbol index>:<param hex64|->:<row,row,...>
-   output: c:<hex> cpp:<hex> mql:<hex> py:<hex>   (NONE for a format the model does not define) *)
+   output: c:<hex> cpp:<hex> mql:<hex> py:<hex> P:<y|x|n per format>
+           (NONE for a format the model does not define) *)
 let split_on c s = String.split_on_char c s
 let bytes_of_hex (p : string) : z list =
   if p = "-" then [] else
@@ -62,7 +63,22 @@ let () =
                     best = { l_index = O; l_cat = O } } in
           let env (op : z) = let i = int_of_z op in if i >= 0 && i < nsym then disp.(i) else None in
           let show f = match language env f g with Some t -> hex_of_bytes t | None -> "NONE" in
-          Printf.printf "c:%s cpp:%s mql:%s py:%s\n" (show FC) (show FCpp) (show FMql) (show FPy)
+          (* the extracted reader applied to the printed text: y = it is the program's own
+             expression (outermost parentheses stripped as language() does), x = it is not,
+             n = the program is outside the hypotheses of the theorems *)
+          let flag f =
+            match active_tree g with
+            | None -> 'n'
+            | Some t ->
+                if not (good_tree env f t && tree_ok env f t) then 'n'
+                else
+                  (match render_tree env f t, language_tree env f t with
+                   | Some full, Some top ->
+                       let want = if List.length top < List.length full then strip_paren (ast env f t) else ast env f t in
+                       (match read f top with Some e -> if e = want then 'y' else 'x' | None -> 'x')
+                   | _, _ -> 'x') in
+          Printf.printf "c:%s cpp:%s mql:%s py:%s P:%c%c%c%c\n" (show FC) (show FCpp) (show FMql) (show FPy)
+            (flag FC) (flag FCpp) (flag FMql) (flag FPy)
       | _ -> print_endline "BADLINE"
     done
   with End_of_file -> ()
